@@ -721,3 +721,7 @@ mod tests {
         buffer2
     }
 }
+
+#[cfg(any(kani, icy_engine_verif))]
+#[path = "/verif/kc/xbinary_harness.rs"]
+mod verif_kani;
